@@ -273,6 +273,12 @@ def fresnel(n1, n2, theta1):
     Rv = (n2 * costheta1 - n1 * costheta2) / (n2 * costheta1 + n1 * costheta2)
     Rh = (n1 * costheta1 - n2 * costheta2) / (n1 * costheta1 + n2 * costheta2)
 
+    # Total reflection (theta2 is NaN): no transmitted part.
+    total = np.isnan(theta2)
+    if np.any(total):
+        Rv = np.where(total, 1.0, Rv)[()]
+        Rh = np.where(total, 1.0, Rh)[()]
+
     return Rv, Rh
 
 
